@@ -155,7 +155,8 @@ Record params := mkP {
   p_default_view_ctx : bool;   (* default_exceptionresponse_view returns its context *)
   p_perm_checks : bool;        (* _call_view(secure=False) checks the predicates of a single secured view *)
   p_nf_fw : list text;         (* predicate arguments add_notfound_view forwards to add_view *)
-  p_fb_fw : list text          (* ... add_forbidden_view *)
+  p_fb_fw : list text;         (* ... add_forbidden_view *)
+  p_vd : list text             (* the directives decorated with @viewdefaults (class-level __view_defaults__ reach their body) *)
 }.
 
 (* the predicate parameters of add_notfound_view / add_forbidden_view (custom = custom_predicates): all forwarded *)
@@ -163,12 +164,22 @@ Definition directive_preds : list text :=
   [nm_request_method; nm_request_param; nm_containment; nm_xhr; nm_accept; nm_header; nm_path_info; nm_custom;
    nm_match_param].
 
+Definition dn_add_view : text := [97; 100; 100; 95; 118; 105; 101; 119]%N.
+Definition dn_add_exception_view : text :=
+  [97; 100; 100; 95; 101; 120; 99; 101; 112; 116; 105; 111; 110; 95; 118; 105; 101; 119]%N.
+Definition dn_add_notfound_view : text :=
+  [97; 100; 100; 95; 110; 111; 116; 102; 111; 117; 110; 100; 95; 118; 105; 101; 119]%N.
+Definition dn_add_forbidden_view : text :=
+  [97; 100; 100; 95; 102; 111; 114; 98; 105; 100; 100; 101; 110; 95; 118; 105; 101; 119]%N.
+Definition all_directives : list text := [dn_add_view; dn_add_exception_view; dn_add_notfound_view; dn_add_forbidden_view].
+
 (* [b]: whether a permissive call honours predicates; the property's value is true *)
 Definition spec_params_b (b : bool) : params :=
   mkP [hn_response; hn_exc_info; hn_exception] [hn_exception; hn_exc_info] [hn_exception; hn_exc_info]
       true [] cn_HTTPNotFound cn_Exception cn_HTTPNotFound true cn_Exception
       [cn_IExceptionResponse; cn_WebobWSGIHTTPException]
-      (cn_HTTPNotFound, true) (cn_HTTPForbidden, true) (cn_Exception, true) true b directive_preds directive_preds.
+      (cn_HTTPNotFound, true) (cn_HTTPForbidden, true) (cn_Exception, true) true b directive_preds directive_preds
+      all_directives.
 Definition spec_params : params := spec_params_b true.
 
 (* ------------------------------------------------------------------ *)
@@ -183,28 +194,54 @@ Record vdecl := mkDecl {
   d_isexc : bool;              (* (oracle) isexception(context as given) *)
   d_args : view_args;          (* C03: request iface, name, predicates, secured, tag; a_ctx is recomputed *)
   d_phase : N;
-  d_body : body
+  d_body : body;
+  d_defctx : option N;         (* context= of the view CLASS's __view_defaults__ (@view_defaults), when the view is a class *)
+  d_defisexc : bool            (* (oracle) isexception of that context *)
 }.
 
 Definition named := list (text * N).                     (* class / interface name -> id *)
 Definition named_id (nm : named) (k : text) : N := match assoc k nm with Some i => i | None => 0%N end.
 
 (* effective (context, exception_only, isexc) of a directive *)
+Definition dir_name (d : directive) : text :=
+  match d with DView => dn_add_view | DExcView => dn_add_exception_view | DNotFound => dn_add_notfound_view
+             | DForbidden => dn_add_forbidden_view end.
+
+(* @viewdefaults: "defaults = view.__view_defaults__.copy(); defaults.update(kw)" -- an argument that is not passed
+   takes the class-level default BEFORE the directive's own body runs.  add_exception_view then keeps it (only a
+   missing context becomes Exception); add_notfound_view / add_forbidden_view reject a context argument
+   (ConfigurationError, represented by (_, true, false): nothing is registered). Without the decorator the directive's
+   body passes its own explicit context on to add_view, whose own defaults lose against explicit arguments. *)
 Definition effective_ctx (P : params) (nm : named) (d : vdecl) : N * bool * bool :=
+  let dflt := if mem_text (dir_name (d_dir d)) (p_vd P) then d_defctx d else None in
   match d_dir d with
-  | DView => (match d_ctx d with Some c => c | None => named_id nm cn_Interface end, d_xonly d,
-              match d_ctx d with Some _ => d_isexc d | None => false end)
-  | DExcView => (match d_ctx d with Some c => c | None => named_id nm (fst (p_exc P)) end, snd (p_exc P),
-                 match d_ctx d with Some _ => d_isexc d | None => true end)
-  | DNotFound => (named_id nm (fst (p_nf P)), snd (p_nf P), true)
-  | DForbidden => (named_id nm (fst (p_fb P)), snd (p_fb P), true)
+  | DView =>
+      match d_ctx d, dflt with
+      | Some c, _ => (c, d_xonly d, d_isexc d)
+      | None, Some c => (c, d_xonly d, d_defisexc d)
+      | None, None => (named_id nm cn_Interface, d_xonly d, false)
+      end
+  | DExcView =>
+      match d_ctx d, dflt with
+      | Some c, _ => (c, snd (p_exc P), d_isexc d)
+      | None, Some c => (c, snd (p_exc P), d_defisexc d)
+      | None, None => (named_id nm (fst (p_exc P)), snd (p_exc P), true)
+      end
+  | DNotFound => match dflt with
+                 | Some _ => (0%N, true, false)
+                 | None => (named_id nm (fst (p_nf P)), snd (p_nf P), true) end
+  | DForbidden => match dflt with
+                  | Some _ => (0%N, true, false)
+                  | None => (named_id nm (fst (p_fb P)), snd (p_fb P), true) end
   end.
 
 (* the keyword arguments that reach add_view: the two directives name the arguments they pass on *)
 Definition forwarded_kw (P : params) (d : directive) (kw : kwargs) : kwargs :=
   match d with
-  | DNotFound => filter (fun e => mem_text (fst e) (p_nf_fw P)) kw
-  | DForbidden => filter (fun e => mem_text (fst e) (p_fb_fw P)) kw
+  (* a predicate that is one of the directive's NAMED parameters reaches add_view only if the directive hands it on;
+     any other predicate travels in **view_options *)
+  | DNotFound => filter (fun e => mem_text (fst e) (p_nf_fw P) || negb (mem_text (fst e) directive_preds)) kw
+  | DForbidden => filter (fun e => mem_text (fst e) (p_fb_fw P) || negb (mem_text (fst e) directive_preds)) kw
   | _ => kw
   end.
 Definition forwarded_args (P : params) (d : directive) (a : view_args) : view_args :=
@@ -233,7 +270,7 @@ Fixpoint default_decls (nm : named) (ctxs : list text) (i : nat) : list vdecl :=
   | [] => []
   | c :: r =>
       mkDecl DView (Some (named_id nm c)) false true
-             (mkArgs (named_id nm cn_IRequest) 0 [] [] None false (default_tag i)) 0 (mkBody false ARetCtx false)
+             (mkArgs (named_id nm cn_IRequest) 0 [] [] None false (default_tag i)) 0 (mkBody false ARetCtx false) None false
       :: default_decls nm r (S i)
   end.
 
@@ -273,7 +310,11 @@ Record rinfo := mkRI {
   ri_preset : option N         (* request.exception / exc_info set by a tween above before the handler runs *)
 }.
 
-Record world := mkWorld { w_reg : registry; w_bodies : list (N * body); w_excs : list exc }.
+Record world := mkWorld {
+  w_reg : registry; w_bodies : list (N * body); w_excs : list exc;
+  w_cont_req : bool;      (* ContainmentPredicate consults getattr(request, 'context', context), not its context argument *)
+  w_phys_req : bool       (* PhysicalPathPredicate consults request.context (the property's value: false -- it uses its argument) *)
+}.
 
 Definition isa (W : world) (cls : text) (e : N) : bool := mem_text cls (x_isa (find_exc (w_excs W) e)).
 Definition status_of (W : world) (e : N) : N := x_status (find_exc (w_excs W) e).
@@ -322,6 +363,12 @@ Definition call_view_sec (P : params) (R : registry) (sec : bool) (cls : N) (rq 
   else call_loop_p P rq (find_views R cls (q_req_sro rq) (q_ctx_sro rq) (q_view_name rq)) false.
 
 (* the request as seen by the exception-view lookup: context = the exception object *)
+Definition traversed (ri : rinfo) : bool :=
+  match ri_root_raise ri, ri_under ri with
+  | Some _, _ => false              (* the root factory raised: no request.context *)
+  | None, URaise _ => false         (* raised above the router *)
+  | None, _ => true
+  end.
 Definition exc_request_raw (own combined : bool) (vname : text) (W : world) (ri : rinfo) (e : N) : request :=
   let q := ri_req ri in
   mkReq (q_method q) (q_params q) (q_headers q) (q_xhr q)
@@ -329,7 +376,11 @@ Definition exc_request_raw (own combined : bool) (vname : text) (W : world) (ri 
                                                                                 after a second dispatch without a route the
                                                                                 matchdict of the first one is still there *)
         (q_auth q) (q_upath q)
-        [] false (q_regex q) (q_accept_q q) (q_truth q)
+        (* the predicates of an exception view are called with the EXCEPTION as context (no lineage, no __name__);
+           request.context is the traversed resource, when traversal happened *)
+        (if w_cont_req W && traversed ri then q_lineage q else [])
+        (if w_phys_req W && traversed ri then q_has_name q else false)
+        (q_regex q) (q_accept_q q) (q_truth q)
         (match ri_under ri with
          | URaise _ => ri_unrouted_sro ri        (* raised above the router: no route has been matched *)
          | URetry => ri_unrouted_sro ri          (* handle_request resets request_iface; the second dispatch matched no route *)
@@ -831,12 +882,12 @@ Definition get_bits (v : val) : option ctxbits :=
 (* [isx]: isexception over the oracle bits of the context object (the regenerated gen_isexception in run_C14) *)
 Definition get_decl (isx : ctxbits -> bool) (v : val) : option vdecl :=
   match v with
-  | VL [dir; ctx; xonly; isexc; args; phase; bd] =>
+  | VL [dir; ctx; xonly; isexc; args; phase; bd; dctx; dbits] =>
       olet dir := get_directive dir in olet ctx := get_opt get_N ctx in olet xonly := get_bool xonly in
       olet isexc := get_bits isexc in let isexc := isx isexc in
       olet args := get_args args in olet phase := get_N phase in
-      olet bd := get_body bd in
-      Some (mkDecl dir ctx xonly isexc args phase bd)
+      olet bd := get_body bd in olet dctx := get_opt get_N dctx in olet dbits := get_bits dbits in
+      Some (mkDecl dir ctx xonly isexc args phase bd dctx (isx dbits))
   | _ => None
   end.
 Definition get_exc (v : val) : option exc :=
